@@ -452,8 +452,21 @@ impl Prop for C13 {
                                 3 => {
                                     // long run so the encoder's 63-byte stack buffer fills up
                                     let c = if good.is_empty() { 'x' } else { *ctx.rng.pick(&good) };
-                                    for _ in 0..ctx.rng.range(20, 90) {
-                                        s.push(c);
+                                    if ctx.rng.bool() {
+                                        for _ in 0..ctx.rng.range(20, 90) {
+                                            s.push(c);
+                                        }
+                                    } else {
+                                        // mixed run (ASCII / mappable / unmappable): every alignment against the encoder's
+                                        // buffers, incl. output that fills a buffer exactly, and runs longer than its heap buffer
+                                        let n = if ctx.rng.chance(1, 12) { ctx.rng.range(1000, 6000) } else { ctx.rng.range(30, 260) };
+                                        for _ in 0..n {
+                                            match ctx.rng.below(8) {
+                                                0 | 1 => s.push(*ctx.rng.pick(&['a', 'z', ' ', '0'])),
+                                                2 => s.push(*ctx.rng.pick(gen::CHAR_POOL)),
+                                                _ => s.push(if good.is_empty() { 'y' } else { *ctx.rng.pick(&good) }),
+                                            }
+                                        }
                                     }
                                 }
                                 _ => s.push_str("abc"),
